@@ -107,6 +107,24 @@ def refine_trees():
                 fd = N('NT_FUNC_DEFINITION', None, [N('NT_ARGUMENTS', None, args), body()])
                 out.append((f'fundef:{dname}:{bname}:{order}', fd))
                 out.append((f'fundef-named:{dname}:{bname}:{order}', N('PUNC_DEFINE', None, [N('ID_FUNCTION', 'F9'), rg.map_locals(fd, lambda x: x)])))
+    # a recursion inside an ARGUMENT DOMAIN, after an argument whose domain binds one / two / three variables of its own
+    recdom = lambda: N('NT_RECURSIVE_SHORT', None, [L('s'), G('X1'), L('s')])
+    binders = {
+        'one': lambda: N('NT_DECLARATIVE_EXPR', None, [L('c'), G('X1'), eq(L('c'), L('c'))]),
+        'two': lambda: N('NT_DECLARATIVE_EXPR', None, [L('c'), G('X1'), N('FORALL', None, [L('y'), G('X1'), eq(L('c'), L('y'))])]),
+        'three': lambda: N('NT_DECLARATIVE_EXPR', None, [L('c'), G('X1'), N('FORALL', None, [L('y'), G('X1'), N('FORALL', None, [L('z'), G('X1'),
+                                                         N('AND', None, [eq(L('c'), L('y')), eq(L('y'), L('z'))])])])]),
+    }
+    for bname, dom in binders.items():
+        for body in ('p', 'q', 'pq'):
+            args = [N('NT_ARG_DECL', None, [L('p'), dom()]), N('NT_ARG_DECL', None, [L('q'), recdom()])]
+            b = L('p') if body == 'p' else (L('q') if body == 'q' else N('UNION', None, [L('p'), N('NT_ENUMERATION', None, [L('q')])]))
+            out.append((f'fundef-recdomain:{bname}:{body}', N('NT_FUNC_DEFINITION', None, [N('NT_ARGUMENTS', None, args), b])))
+        # an argument that reuses the name of a variable bound (and already out of scope) in an earlier argument's domain
+        for second in ('plain', 'rec'):
+            args = [N('NT_ARG_DECL', None, [L('p'), dom()]), N('NT_ARG_DECL', None, [L('c'), G('X1') if second == 'plain' else recdom()])]
+            for body in ('p', 'c'):
+                out.append((f'fundef-argreuse:{bname}:{second}:{body}', N('NT_FUNC_DEFINITION', None, [N('NT_ARGUMENTS', None, args), L(body)])))
     return out
 
 
